@@ -105,7 +105,7 @@ def r_order(E):
                         "R-ORDER", f"{c}.update_{x} reads self.{y}",
                         f"{c}.update_{x} reads self.{y}, which {c}.calculated_attributes computes later "
                         f"(position {ca.index(y)} > {ca.index(x)}): it sees the previous pass's value",
-                        path, fn.lineno, f"{owner}.update_{x}"))
+                        path, fn.lineno, f"{owner}.update_{x}", {"clauses": ["all"] + (["usage"] if "core/usage" in path else [])}))
             else:
                 if c == "System":
                     continue
@@ -115,7 +115,7 @@ def r_order(E):
                         "R-ORDER", f"{c}.update_{x} reads {d}.{y}",
                         f"{c}.update_{x} reads {d}.{y} of another object, but slot {pm.ORDER[sd]} is not before slot "
                         f"{pm.ORDER[sc]} in CANONICAL_COMPUTATION_ORDER: after an edit it reads a stale value",
-                        path, fn.lineno, f"{owner}.update_{x}"))
+                        path, fn.lineno, f"{owner}.update_{x}", {"clauses": ["all"] + (["usage"] if "core/usage" in path else [])}))
             if len(res.samples) < 6:
                 res.samples.append({"context": f"{c}.update_{x}", "reads": f"{d}.{y}", "same_object": is_self,
                                     "verdict": "ordered"})
